@@ -1,5 +1,5 @@
 (** Model of pint's PromQL label-flow analyser, internal/parser/utils/source.go, as the code is NOW
-    (after fixes c0db6fa, f3c0f95, 392e95a, 78dbe66, 5b88941, 06b3093): [walk_node] and every transfer function, [can_have_label], [can_join],
+    (after fixes c0db6fa, f3c0f95, 392e95a, 78dbe66, 5b88941, 06b3093, 53ade46): [walk_node] and every transfer function, [can_have_label], [can_join],
     [calculate_static_return], and the two consumers (alerts/template label check, promql/impossible).
 
     Not modelled (message-only data): ExcludeReason texts/fragments, Position/IsDeadPosition, IsDeadReason text
@@ -155,7 +155,7 @@ Definition labels_with_empty_value_selector (ms : list matcher) : list string :=
                else if matchtype_eqb (m_type lm) MEq && String.eqb (m_value lm) "" then append_to_slice names [m_name lm]
                else names) ms [].
 
-(** absentLabels (fixes 5b88941, 06b3093): the labels absent()/absent_over_time() copy to their result.  Parentheses
+(** absentLabels (fixes 5b88941, 06b3093, 53ade46): the labels absent()/absent_over_time() copy to their result.  Parentheses
     around the argument are unwrapped; for a plain (matrix) selector the matchers are walked in order exactly as the engine
     does: the first equality matcher of a name sets the label (an empty value removes it), any other matcher of that name
     removes it; the metric name is skipped.  Any other argument gives no labels. *)
@@ -253,8 +253,9 @@ Section Walk.
 
   Definition gmatches := guaranteed_labels_matches.
 
+  (** [param, ok := stringLiteralValue(e)]: [lit_of e] is [Some param] when ok; [str_of_expr e] is [param] ("" when not ok) *)
   Definition str_of_expr (e : option expr) : string :=
-    match e with Some (EStr s) => s | _ => "" end.
+    match lit_of e with Some s => s | None => "" end.
 
   (** parsePromQLFunc, with [arg0_sources] = walkNode(expr, n.Args[0]) for the "vector" case. *)
   Definition parse_promql_func (s : source) (fname : string) (args : list expr) (arg0_sources : list source) : source :=
@@ -277,7 +278,11 @@ Section Walk.
       | _ => guarantee_label s (labels_from_selectors gmatches (s_selector s))
       end
     else if String.eqb kind "arg1" then
-      guarantee_label (set_returns s VVector) [str_of_expr (nth_error args 1)]
+      (* fix 53ade46: dst is guaranteed only when Args[1] is a (parenthesised) string literal *)
+      match lit_of (nth_error args 1) with
+      | Some dst => guarantee_label (set_returns s VVector) [dst]
+      | None => set_returns s VVector
+      end
     else if String.eqb kind "vector" then
       let s := set_always (set_fixed (clear_labels (set_returns s VVector)) true) true in
       fold_left (fun s vs => if s_known vs then set_known (set_number s (s_number vs)) true else s) arg0_sources s
@@ -418,8 +423,11 @@ Section Walk.
     match op with
     | ACountValues =>
         let s := set_operation (parse_aggregation1 s without grouping) "count_values" in
-        let s := include_label s [str_of_expr param] in
-        let s := guarantee_label s [str_of_expr param] in
+        (* fix 53ade46: included and guaranteed only when the parameter is a (parenthesised) string literal *)
+        let s := match lit_of param with
+                 | Some d => guarantee_label (include_label s [d]) [d]
+                 | None => s
+                 end in
         (* fix 392e95a: count_values("__name__", ...) by(...) stores the value in the metric name *)
         if without || negb (String.eqb (str_of_expr param) metric_name)
         then exclude_metric_name s without grouping else s
